@@ -318,8 +318,8 @@ def run_cfg(chk, facts, cfg):
         try:
             sx, paths = summ(facts, snew, ['pop', 'succ'], None)
             rets = [p.ret for p in paths if p.is_ret()]
-            if len(rets) == 1 and rets[0][0] == 'adt' and set(rets[0][3]) == {T.sym('pop'), T.sym('succ')}:
-                layout = (rets[0][3].index(T.sym('pop')), rets[0][3].index(T.sym('succ')))
+            if len(rets) == 1 and rets[0][0] == 'adt' and set(rets[0][3]) - {T.AUX} == {T.sym('pop'), T.sym('succ')}:
+                layout = (rets[0][3].index(T.sym('pop')), rets[0][3].index(T.sym('succ')), len(rets[0][3]))
         except Unsupported:
             pass
         chk.ob('%s:stats-layout%s' % (PID, sfx), 'layout', 'Stats::new stores (population, successes)', layout is not None, '', facts.loc(snew['id']))
@@ -327,7 +327,7 @@ def run_cfg(chk, facts, cfg):
         return
 
     def stats_state(n, k):
-        f = [None, None]
+        f = [T.AUX] * layout[2]      # auxiliary fields (sa/layout.py), if any
         f[layout[0]] = n
         f[layout[1]] = k
         return ('adt', 'proportion::Stats', 0, tuple(f))
